@@ -36,6 +36,23 @@ def make(kind, p, rng):
         return ips.PhaseScreenKolmogorov(p["nx"], p["ps"], p["r0"], p["L0"], random_seed=rng, stencil_length_factor=p["factor"])
 
 
+def sibling_first(ctx, kind, p):
+    """An earlier screen of the same process that shares derived quantities with the one about to be built (the same
+    L0/r0, the same geometry in pixels, the same dimensionless numbers): whatever it left behind must not reach it."""
+    from scipy import linalg
+    if not p.get("sib"):
+        return
+    q = dict(p)
+    for f in p["sib"].split(","):
+        q[f] = p[f] * p["sibk"]
+    try:
+        sib = make(kind, q, Scripted())
+        del sib
+        ctx.classes["sibling_first_" + p["sib"]] += 1
+    except (linalg.LinAlgError, np.linalg.LinAlgError):
+        pass
+
+
 def recover_maps(scr, rng, only_rows=None):
     """Effective M (nx x working pixels) and B (nx x nx) of one add_row step, through public behaviour."""
     shape = scr._scrn.shape
@@ -78,7 +95,8 @@ def vk_cases(draw, nmax=28):
     if draw(st.integers(0, 5)) == 0:
         ps = draw(st.sampled_from([1, 2]))                       # a pixel scale given as an integer is a valid pixel scale
     return {"kind": "vk", "nx": nx, "ncol": draw(st.integers(1, min(4, nx))), "ps": ps, "r0": draw(gen.logfloat(0.05, 1.0)),
-            "L0": ps * draw(RATIO), "seed": draw(st.integers(0, 2**31)), "c": draw(st.floats(-50, 50))}
+            "L0": ps * draw(RATIO), "seed": draw(st.integers(0, 2**31)), "c": draw(st.floats(-50, 50)),
+            "sib": draw(st.sampled_from([None, None, "r0,L0", "r0", "L0", "ps,r0,L0"])), "sibk": draw(st.sampled_from([2.0, 0.5, 4.0, 1.25]))}
 
 
 @st.composite
@@ -88,13 +106,15 @@ def fried_cases(draw, nmax=20):
     if draw(st.integers(0, 5)) == 0:
         ps = draw(st.sampled_from([1, 2]))
     return {"kind": "fried", "nx": nx, "factor": draw(st.integers(1, 4)), "ps": ps, "r0": draw(gen.logfloat(0.05, 1.0)),
-            "L0": ps * draw(RATIO), "seed": draw(st.integers(0, 2**31)), "c": draw(st.floats(-50, 50))}
+            "L0": ps * draw(RATIO), "seed": draw(st.integers(0, 2**31)), "c": draw(st.floats(-50, 50)),
+            "sib": draw(st.sampled_from([None, None, "r0,L0", "r0", "L0", "ps,r0,L0"])), "sibk": draw(st.sampled_from([2.0, 0.5, 4.0, 1.25]))}
 
 
 def body(ctx, p):
     from scipy import linalg
     kind = p["kind"]
     rng = Scripted()
+    sibling_first(ctx, kind, p)
     try:
         scr = make(kind, p, rng)
     except (linalg.LinAlgError, np.linalg.LinAlgError) as e:
@@ -247,12 +267,38 @@ def stream_body(ctx, p):
     g = np.random.default_rng(p["seed"])
     g.normal(size=(ns, ns))
     g.normal(size=(ns, ns))                               # the initial FFT screen's two (N, N) blocks, N = stencil length
+    frames = []
     for k in range(p["rows"]):
         before = np.array(scr._scrn, copy=True)
+        old = scr.scrn                                       # the "old phase" as the user holds it
+        old0 = np.array(old, copy=True)
         b = g.normal(0, 1, size=nxi)
-        scr.add_row()
+        new = scr.add_row()
+        frames.append((new, np.array(new, copy=True)))
+        # "the joint statistics of old and new phase": the old phase is still the old phase once the new row exists
+        ctx.equal(old, old0, "the screen obtained from .scrn before add_row() was rewritten by add_row() (row %d)" % k)
+        for j, (f, f0) in enumerate(frames):
+            ctx.equal(f, f0, "the screen returned by add_row() number %d was rewritten by add_row() number %d" % (j, k))
         want = M @ before.ravel() + B @ b
         ctx.close(scr._scrn[0], want, 1e-10, "row %d of an int-seeded screen is driven by the next unused draws of default_rng(seed)" % k, scale=float(np.max(np.abs(want))) or 1.0, name="int-seed stream")
+    # an unseeded screen: b is a fresh vector for every row whatever the program does with NumPy's global generator in between
+    q = dict(p, seed=None)
+    un = c_make_int(q)
+    st0 = np.random.get_state()
+    try:
+        inn = []
+        for k in range(max(2, p["rows"])):
+            np.random.seed(20240917)
+            np.random.normal(size=5)
+            before = np.array(un._scrn, copy=True)
+            un.add_row()
+            inn.append(np.array(un._scrn[0]) - M @ before.ravel())          # = B b_k
+    finally:
+        np.random.set_state(st0)
+    sc_ = float(np.max(np.abs(B))) or 1.0
+    for i in range(len(inn)):
+        for j in range(i):
+            ctx.require(float(np.max(np.abs(inn[i] - inn[j]))) > 1e-9 * sc_, "unseeded %s screen: rows %d and %d were driven by the same innovation vector b (NumPy's global generator had been put in the same state before each add_row)" % (p["kind"], j, i))
 
 
 def c_make_int(p):
